@@ -27,6 +27,10 @@ def gen(rng, tier):
             c['complex'] = True  # complex scalars on operators that split real and imaginary parts
         if c['cls'] == 'SliceProjectionOp':
             c['vol_batch'] = [[2], [3], [], [2]][(i // len(ALL)) % 4]   # batched complex volumes are always exercised
+        if c['cls'] == 'GridSamplingOp' and (i // len(ALL)) % 2 == 0:
+            # two batch dimensions of the grid, the second of size 2 (a misplaced real/imag helper axis would be read as that batch axis)
+            c['B'], c['B2'] = 3, 2
+            c['grid'] = [rng.randint(-10, 10) / 8 for _ in range(6 * opzoo.prod(c['out']) * c['dim'])]
         c['a'], c['b'] = opzoo.rand_gauss(rng, 1, -3, 3)[0], opzoo.rand_gauss(rng, 1, -3, 3)[0]
         if c['a'][1] == 0:
             c['a'][1] = 1   # complex scalars
@@ -124,6 +128,70 @@ def compare(c, o, m):
     return None
 
 
+# ---- derived operators: complex scalar / tensor factors on operators with real coefficients, applied to real-dtype and complex inputs -------
+def gen_scaled(rng, tier):
+    out = []
+    for i in range(16 if tier == 'quick' else 300):
+        cls = ['FiniteDifferenceOp', 'ZeroPadOp', 'RearrangeOp', 'DensityCompensationOp', 'CartesianSamplingOp', 'SensitivityOp', 'EinsumOp'][i % 7]
+        c = opzoo.GENERATORS[cls](rng)
+        c['complex'] = False if 'complex' in c else c.get('complex')
+        c.update({'factor': [rng.choice([-2, 1, 2, 3]), rng.choice([-3, -1, 1, 2])], 'side': ['left', 'right'][i % 2], 'tensor_factor': i % 4 >= 2,
+                  'seed': rng.randrange(10 ** 6)})
+        out.append(c)
+    return out
+
+
+def impl_scaled(c):
+    import mrpro.operators as ops
+    op, in_shape = opzoo.build(c)
+    g = torch.Generator().manual_seed(c['seed'])
+    s = complex(*c['factor'])
+    res = {}
+    for name, dt in (('real', torch.float64), ('complex', torch.complex128)):
+        x = _rand(in_shape, g, dt)
+        try:
+            (y0,) = op(x)
+        except (RuntimeError, TypeError, ValueError) as e:   # the inner operator itself rejects that dtype
+            res[name] = {'unsupported': str(e)[:60]}
+            continue
+        if c['side'] == 'left':       # (s * A)(x) = s * A(x)
+            f = torch.tensor(s, dtype=torch.complex128) if c['tensor_factor'] else s
+            sop = f * op
+            want = s * y0.to(torch.complex128)
+            (got,) = sop(x)
+            u = _rand(list(y0.shape), g, dt)
+            (ga,) = sop.adjoint(u)
+            wanta = op.adjoint((np.conj(s) * u.to(torch.complex128)))[0] if True else None
+        else:                          # (A * s)(x) = A(s * x)
+            f = torch.tensor(s, dtype=torch.complex128) if c['tensor_factor'] else s
+            sop = op * f
+            want = op(s * x.to(torch.complex128))[0]
+            (got,) = sop(x)
+            u = _rand(list(y0.shape), g, dt)
+            (ga,) = sop.adjoint(u)
+            wanta = np.conj(s) * op.adjoint(u)[0].to(torch.complex128)
+        sc = float(max(1.0, want.abs().max()))
+        res[name] = {'dev': float((got.to(torch.complex128) - want.to(torch.complex128)).abs().max()) / sc,
+                     'adj_dev': float((ga.to(torch.complex128) - wanta.to(torch.complex128)).abs().max()) / float(max(1.0, wanta.abs().max()))}
+    return res
+
+
+def oracle_scaled(c, o):
+    if 'raises' in o:
+        return f'{c["cls"]} with a complex factor raised {o["raises"]}: {o.get("msg")}'
+    for name in ('real', 'complex'):
+        r = o.get(name, {})
+        if r.get('dev', 0) > 1e-12:
+            return (f'({"s * A" if c["side"] == "left" else "A * s"})(x) != {"s * A(x)" if c["side"] == "left" else "A(s * x)"} for s = {c["factor"]} '
+                    f'({"tensor" if c["tensor_factor"] else "python scalar"}) on {c["cls"]} with a {name}-dtype input: relative deviation {r["dev"]:.3g}')
+        if r.get('adj_dev', 0) > 1e-12:
+            return (f'adjoint of ({"s * A" if c["side"] == "left" else "A * s"}) != conj(s) scaled adjoint for s = {c["factor"]} on {c["cls"]} '
+                    f'with a {name}-dtype input: relative deviation {r["adj_dev"]:.3g}')
+    return None
+
+
 FAMILIES = [Family('superposition', gen, impl, coq, PREAMBLE, compare, oracle,
                    nontrivial=lambda c: c['a'][1] != 0 and c['b'][1] != 0 and any(c['a']) and any(c['b']), descr=C01.descr, shard=30,
-                   theorem='C02_closure, C02_matrix_action, C02_elementary')]
+                   theorem='C02_closure, C02_matrix_action, C02_elementary'),
+            Family('scaled_real_operator', gen_scaled, impl_scaled, None, '', None, oracle_scaled, descr=C01.descr,
+                   theorem='C02_closure (scalings preserve linearity; (s A)(x) = s A(x), (A s)(x) = A(s x) for every scalar of the ring)')]
